@@ -47,14 +47,34 @@
 //	Writes answered hash_slot_fenced / refused must appear nowhere unless they
 //	are re-submitted to the new owner; the outbox must be empty after the acks.
 //
-// Deliberately NOT asserted (counted only): rows of the control hash slot that
-// show up in the target DB (the statement is about h); equality of forwarder
-// captures and outbox rows; anything about timing.
+//	(4) added after a seeded-bug escape: deltas are delivered from BOTH transports
+//	    (forwarder captures and ListHashSlotMigrationOutbox rows), each copy
+//	    under the hash slot that transport carries; every capture must agree
+//	    with its outbox row (source index, hash slot, payload); no row of a
+//	    non-migrating hash slot (control slot, legacy envelope slot 0) may exist
+//	    in the target.  Every command family with a per-item hash slot (47, 59,
+//	    63, 64, 65) is proposed under the migrating and under the control
+//	    envelope hash slot in every phase, with items for both; the conservation
+//	    oracle is per item.  Command 65 (task completion) is the only write that
+//	    shares keys with another one (its admission 63): its delta is first
+//	    delivered after the admission's delta.
+//
+// Unit cmd59 runs the same monitor with command-59 batches (create runtime
+// metadata) that carry items for h AND c: command 59 has no per-hash-slot
+// filter for apply_delta in this tree, so the target stores the control
+// slot's items too.  Unit main keeps command 59 to items for h (under either
+// envelope) so that it stays a regression monitor.
+//
+// Deliberately NOT asserted: anything about timing; runtime-metadata rows
+// written before the delta targets exist when the pinned (backup) stream is the
+// snapshot (that stream excludes them by design; such writes are generated only
+// with the full export or once the outbox covers them).
 package c39_test
 
 import (
 	"bytes"
 	"context"
+	"encoding/binary"
 	"errors"
 	"fmt"
 	"io"
@@ -66,6 +86,7 @@ import (
 	"testing"
 
 	metadb "github.com/WuKongIM/WuKongIM/pkg/db/meta"
+	"github.com/WuKongIM/WuKongIM/pkg/protocol/channelid"
 	"github.com/WuKongIM/WuKongIM/pkg/slot/fsm"
 	"github.com/WuKongIM/WuKongIM/pkg/slot/multiraft"
 	"github.com/WuKongIM/WuKongIM/pkg/verifkit"
@@ -100,6 +121,9 @@ type c39Side struct {
 	sm    c39Machine
 	owned map[uint16]bool
 	next  uint64 // next raft index of this physical slot
+	// legacy: built with fsm.NewStateMachine (one-to-one slot/hash-slot default,
+	// envelope hash slot 0 = "the slot's own hash slot"), ownership pushed afterwards.
+	legacy bool
 }
 
 func (s *c39Side) ownedList() []uint16 {
@@ -118,7 +142,12 @@ func (s *c39Side) open() error {
 	if err != nil {
 		return err
 	}
-	sm, err := fsm.NewStateMachineWithHashSlots(db, s.slot, s.ownedList())
+	var sm multiraft.StateMachine
+	if s.legacy {
+		sm, err = fsm.NewStateMachine(db, s.slot)
+	} else {
+		sm, err = fsm.NewStateMachineWithHashSlots(db, s.slot, s.ownedList())
+	}
 	if err != nil {
 		_ = db.Close()
 		return err
@@ -127,6 +156,9 @@ func (s *c39Side) open() error {
 	if !ok {
 		_ = db.Close()
 		return fmt.Errorf("state machine %T lacks the migration method set", sm)
+	}
+	if s.legacy {
+		m.UpdateOwnedHashSlots(s.ownedList())
 	}
 	s.db, s.sm = db, m
 	return nil
@@ -154,6 +186,26 @@ type c39Cmd struct {
 	Data     []byte
 	Rows     []*c39Row
 	Slots    map[uint16]bool
+	Index    uint64 // source raft index the command was applied at
+	// MayDelete: an accepted command may leave some of its rows absent (task completion).
+	MayDelete bool
+	// Dep: command (same keys) whose delta has to reach the target first.
+	Dep *c39Cmd
+	// person-directory admission items (for a later completion command)
+	admitItems []fsm.PersonDirectoryCompletionBatchItem
+}
+
+// c39Delta is one forwardable delta as one transport saw it.
+type c39Delta struct {
+	HashSlot uint16
+	Data     []byte
+}
+
+// c39Pend names one deliverable copy of a delta: source index + transport
+// ('F' = forwarder capture, 'O' = durable outbox row).
+type c39Pend struct {
+	Index uint64
+	Src   byte
 }
 
 type c39Case struct {
@@ -174,8 +226,15 @@ type c39Case struct {
 	absentT map[string]*c39Row
 	fenced  []*c39Cmd // commands answered fenced (candidates for re-submission)
 
-	known     map[uint64][]byte // every delta (source index -> original command) seen in captures/outbox
-	pending   map[uint64]bool
+	captures  map[uint64]c39Delta // forwarder captures by source index (hash slot as forwarded)
+	outbox    map[uint64]c39Delta // every outbox row ever listed, by source index
+	checked   map[uint64]bool     // captures already cross-checked against their outbox row
+	deps      map[uint64]uint64   // source index -> source index that must be delivered first
+	admits    []*c39Cmd           // accepted admissions not yet completed
+	pending   map[c39Pend]bool
+	legacy    bool
+	rt59Both  bool // command 59 batches carry items for h AND c
+	sigSeen   map[string]int // shared by all cases of the run
 	delivered map[uint64]int
 	acked     map[uint64]bool
 	lastDeliv uint64
@@ -200,6 +259,11 @@ func (k *c39Case) viol(sig string, w map[string]any) {
 	}
 	w["case"] = k.idx
 	w["h"], w["c"] = k.h, k.c
+	k.sigSeen[sig]++
+	if k.sigSeen[sig] > 2 { // the violation list is bounded: keep room for other signatures
+		k.r.Count("violations_repeated."+sig, 1)
+		return
+	}
 	k.r.Violation(sig, w)
 }
 
@@ -243,9 +307,15 @@ func (k *c39Case) deviceRow(uid string, flag int64, slot uint16) *c39Row {
 	})
 }
 
-func (k *c39Case) channelRow(id string, slot uint16) *c39Row {
-	return k.row("channel", id, slot, func(ctx context.Context, db *metadb.DB) (string, bool, error) {
-		ch, err := db.ForHashSlot(slot).GetChannel(ctx, id, 2)
+func (k *c39Case) channelRow(id string, slot uint16) *c39Row { return k.channelRowT(id, 2, slot) }
+
+func (k *c39Case) channelRowT(id string, ctype int64, slot uint16) *c39Row {
+	fam := "channel"
+	if ctype != 2 {
+		fam = "personchannel"
+	}
+	return k.row(fam, id, slot, func(ctx context.Context, db *metadb.DB) (string, bool, error) {
+		ch, err := db.ForHashSlot(slot).GetChannel(ctx, id, ctype)
 		if c39NotFound(err) {
 			return "", false, nil
 		}
@@ -277,9 +347,39 @@ func (k *c39Case) subsRow(id string, slot uint16) *c39Row {
 	})
 }
 
-func (k *c39Case) memberRow(uid, ch string, slot uint16) *c39Row {
-	return k.row("member", uid+"/"+ch, slot, func(ctx context.Context, db *metadb.DB) (string, bool, error) {
-		m, err := db.ForHashSlot(slot).GetUserChannelMembership(ctx, uid, ch, 2)
+func (k *c39Case) memberRow(uid, ch string, slot uint16) *c39Row { return k.memberRowT(uid, ch, 2, slot) }
+
+func (k *c39Case) rtmetaRow(id string, ctype int64, slot uint16) *c39Row {
+	fam := "rtmeta"
+	if ctype != 2 {
+		fam = "personrtmeta"
+	}
+	return k.row(fam, fmt.Sprintf("%s/%d", id, ctype), slot, func(ctx context.Context, db *metadb.DB) (string, bool, error) {
+		m, err := db.ForHashSlot(slot).GetChannelRuntimeMeta(ctx, id, ctype)
+		if c39NotFound(err) {
+			return "", false, nil
+		}
+		return fmt.Sprintf("%+v", m), err == nil, err
+	})
+}
+
+func (k *c39Case) pdtaskRow(id string, slot uint16) *c39Row {
+	return k.row("pdtask", id, slot, func(ctx context.Context, db *metadb.DB) (string, bool, error) {
+		t, ok, err := db.ForHashSlot(slot).GetPersonDirectoryTask(ctx, id, 1)
+		if err != nil || !ok {
+			return "", false, err
+		}
+		return fmt.Sprintf("%+v", t), true, nil
+	})
+}
+
+func (k *c39Case) memberRowT(uid, ch string, ctype int64, slot uint16) *c39Row {
+	fam := "member"
+	if ctype != 2 {
+		fam = "personmember"
+	}
+	return k.row(fam, uid+"/"+ch, slot, func(ctx context.Context, db *metadb.DB) (string, bool, error) {
+		m, err := db.ForHashSlot(slot).GetUserChannelMembership(ctx, uid, ch, ctype)
 		if c39NotFound(err) {
 			return "", false, nil
 		}
@@ -307,17 +407,66 @@ func (k *c39Case) pluginRow(uid string, slot uint16) *c39Row {
 	})
 }
 
-var c39Families = []string{"user", "device", "channel", "subs", "member", "latest", "plugin", "latestbatch"}
+var c39Single = []string{"user", "device", "channel", "subs", "member", "latest", "plugin"}
+
+// every command family that carries a per-item hash slot (commands 47, 64, 59, 63;
+// 65 = completion is generated from an accepted admission, see genComplete)
+var c39Multi = []string{"latestbatch", "memberbatch", "rtmetabatch", "admitbatch"}
+
+// rtmetaAllowed: runtime-metadata rows are deliberately not part of the pinned
+// (backup) hash-slot stream; with that snapshot kind they can only reach the
+// target through deltas, i.e. once the delta targets are installed.
+func (k *c39Case) rtmetaAllowed() bool { return k.snapMethod == "export" || k.targets }
+
+func (k *c39Case) pickFamily() string {
+	if k.rng.IntN(5) < 3 {
+		return c39Single[k.rng.IntN(len(c39Single))]
+	}
+	return k.pickMulti()
+}
+
+func (k *c39Case) pickMulti() string {
+	fam := c39Multi[k.rng.IntN(len(c39Multi))]
+	if k.rt59Both && k.rng.IntN(2) == 0 {
+		fam = "rtmetabatch"
+	}
+	if (fam == "rtmetabatch" || fam == "admitbatch") && !k.rtmetaAllowed() {
+		fam = []string{"latestbatch", "memberbatch"}[k.rng.IntN(2)]
+	}
+	return fam
+}
+
+// itemSlots spreads n batch items over h and c (both always present).
+func (k *c39Case) itemSlots(n int) []uint16 {
+	out := make([]uint16, n)
+	for i := range out {
+		switch {
+		case i == 0:
+			out[i] = k.h
+		case i == 1:
+			out[i] = k.c
+		default:
+			out[i] = []uint16{k.h, k.c}[k.rng.IntN(2)]
+		}
+	}
+	k.rng.Shuffle(n, func(a, b int) { out[a], out[b] = out[b], out[a] })
+	return out
+}
+
+func c39RuntimeMeta(id string, ctype int64, n int) metadb.ChannelRuntimeMeta {
+	return metadb.ChannelRuntimeMeta{ChannelID: id, ChannelType: ctype, ChannelEpoch: uint64(1 + n%3), LeaderEpoch: 1,
+		Replicas: []uint64{1, 2}, ISR: []uint64{1}, Leader: 1, MinISR: 1}
+}
 
 // genWrite builds a fresh uniquely keyed write whose envelope hash slot is hs.
-// multi=true makes a command-47 batch that spans h and c.
+// The multi-hash-slot families always carry items for h AND c, whatever hs is.
 func (k *c39Case) genWrite(hs uint16, forceFam string) *c39Cmd {
 	k.seq++
 	id := k.seq
 	m := fmt.Sprintf("k%d-%d", k.idx, id)
 	fam := forceFam
 	if fam == "" {
-		fam = c39Families[k.rng.IntN(len(c39Families))]
+		fam = k.pickFamily()
 	}
 	cmd := &c39Cmd{ID: id, Fam: fam, Envelope: hs, Slots: map[uint16]bool{hs: true}}
 	switch fam {
@@ -373,6 +522,77 @@ func (k *c39Case) genWrite(hs uint16, forceFam string) *c39Cmd {
 			cmd.Slots[s] = true
 		}
 		cmd.Data = fsm.EncodeUpsertChannelLatestBatchCommand(items)
+	case "memberbatch":
+		// command 64: create-if-absent person memberships, one UID hash slot per item
+		slots := k.itemSlots(2 + k.rng.IntN(3))
+		items := make([]fsm.UserChannelMembershipBatchItem, 0, len(slots))
+		for i, s := range slots {
+			uid := fmt.Sprintf("pa%d-%s", i, m)
+			ch := channelid.EncodePersonChannel(uid, fmt.Sprintf("pb%d-%s", i, m))
+			items = append(items, fsm.UserChannelMembershipBatchItem{HashSlot: s, Membership: metadb.UserChannelMembership{UID: uid, ChannelID: ch, ChannelType: 1,
+				JoinSeq: uint64(1 + k.rng.IntN(9)), SourceVersion: 1, UpdatedAt: int64(900 + id)}})
+			cmd.Rows = append(cmd.Rows, k.memberRowT(uid, ch, 1, s))
+			cmd.Slots[s] = true
+		}
+		var err error
+		if cmd.Data, err = fsm.EncodeEnsureUserChannelMembershipBatchCommandChecked(items); err != nil {
+			k.inconclusive("encode memberbatch: " + err.Error())
+		}
+	case "rtmetabatch":
+		// command 59: create-only channel runtime metadata, one channel hash slot per item
+		slots := k.itemSlots(2 + k.rng.IntN(3))
+		if !k.rt59Both {
+			// unit main: command 59 carries items for h only (under either envelope);
+			// the h+c variant lives in unit cmd59 (see TestVerifC39Cmd59)
+			for i := range slots {
+				slots[i] = k.h
+			}
+		}
+		items := make([]fsm.CreateChannelRuntimeMetaBatchItem, 0, len(slots))
+		for i, s := range slots {
+			ch := fmt.Sprintf("rm%d-%s", i, m)
+			items = append(items, fsm.CreateChannelRuntimeMetaBatchItem{HashSlot: s, Meta: c39RuntimeMeta(ch, 2, id+i)})
+			cmd.Rows = append(cmd.Rows, k.rtmetaRow(ch, 2, s))
+			cmd.Slots[s] = true
+		}
+		var err error
+		if cmd.Data, err = fsm.EncodeCreateChannelRuntimeMetaBatchCommandChecked(items); err != nil {
+			k.inconclusive("encode rtmetabatch: " + err.Error())
+		}
+	case "admitbatch":
+		// command 63: person-directory task admission + create-only runtime metadata
+		slots := k.itemSlots(2 + k.rng.IntN(2))
+		items := make([]fsm.PersonDirectoryAdmissionBatchItem, 0, len(slots))
+		for i, s := range slots {
+			ch := channelid.EncodePersonChannel(fmt.Sprintf("qa%d-%s", i, m), fmt.Sprintf("qb%d-%s", i, m))
+			items = append(items, fsm.PersonDirectoryAdmissionBatchItem{HashSlot: s,
+				Task:        metadb.PersonDirectoryTask{ChannelID: ch, ChannelType: 1, CommittedTail: uint64(1 + i), CreatedAt: int64(1000 + id)},
+				RuntimeMeta: c39RuntimeMeta(ch, 1, id+i)})
+			cmd.Rows = append(cmd.Rows, k.rtmetaRow(ch, 1, s), k.pdtaskRow(ch, s), k.channelRowT(ch, 1, s))
+			cmd.admitItems = append(cmd.admitItems, fsm.PersonDirectoryCompletionBatchItem{HashSlot: s, ChannelID: ch, ChannelType: 1, Generation: 1})
+			cmd.Slots[s] = true
+		}
+		var err error
+		if cmd.Data, err = fsm.EncodeAdmitPersonDirectoryTaskBatchCommandChecked(items); err != nil {
+			k.inconclusive("encode admitbatch: " + err.Error())
+		}
+	}
+	return cmd
+}
+
+// genComplete builds command 65 (task completion: deletes the task rows, marks
+// the channels ready) for an accepted admission. It is the only write that is
+// not on a key of its own: its delta is delivered after the admission's delta.
+func (k *c39Case) genComplete(admit *c39Cmd, envelope uint16) *c39Cmd {
+	k.seq++
+	cmd := &c39Cmd{ID: k.seq, Fam: "completebatch", Envelope: envelope, Slots: map[uint16]bool{envelope: true}, MayDelete: true, Dep: admit}
+	for _, it := range admit.admitItems {
+		cmd.Rows = append(cmd.Rows, k.pdtaskRow(it.ChannelID, it.HashSlot), k.channelRowT(it.ChannelID, 1, it.HashSlot))
+		cmd.Slots[it.HashSlot] = true
+	}
+	var err error
+	if cmd.Data, err = fsm.EncodeCompletePersonDirectoryTaskBatchCommandChecked(admit.admitItems); err != nil {
+		k.inconclusive("encode completebatch: " + err.Error())
 	}
 	return cmd
 }
@@ -427,14 +647,19 @@ func (k *c39Case) markRefused(side *c39Side, cmd *c39Cmd, why string) {
 			k.absentT[row.Key] = row
 		}
 		// immediate check on the refusing side: no row change
-		if v, present := k.readRow(side, row); present {
-			exp, had := k.expS[row.Key]
-			if side == k.T {
-				exp, had = k.expT[row.Key]
-			}
-			if !had || exp != v {
-				k.viol("refused-write-changed-row:"+cmd.Fam+":"+side.name, map[string]any{"why": why, "row": row.Key, "value": v, "phase": k.phase()})
-			}
+		v, present := k.readRow(side, row)
+		if !present {
+			v = c39Absent
+		}
+		exp, had := k.expS[row.Key]
+		if side == k.T {
+			exp, had = k.expT[row.Key]
+		}
+		if !had {
+			exp = c39Absent
+		}
+		if exp != v {
+			k.viol("refused-write-changed-row:"+cmd.Fam+":"+side.name, map[string]any{"why": why, "row": row.Key, "value": v, "before": exp, "phase": k.phase()})
 		}
 	}
 }
@@ -447,7 +672,16 @@ func (k *c39Case) apply(side *c39Side, cmds []*c39Cmd) {
 	batch := make([]multiraft.Command, 0, len(cmds))
 	for _, c := range cmds {
 		side.next++
-		batch = append(batch, multiraft.Command{SlotID: multiraft.SlotID(side.slot), HashSlot: c.Envelope, Index: side.next, Term: 1, Data: c.Data})
+		c.Index = side.next
+		env := c.Envelope
+		if side.legacy && side.owned[k.h] && env == k.h && k.rng.IntN(2) == 0 {
+			env = 0 // legacy envelope: "this slot's own hash slot"
+			k.r.Count("legacy.envelope_zero_commands", 1)
+		}
+		batch = append(batch, multiraft.Command{SlotID: multiraft.SlotID(side.slot), HashSlot: env, Index: side.next, Term: 1, Data: c.Data})
+	}
+	if side == k.S {
+		defer k.crossCheck()
 	}
 	mustRefuse := ""
 	for _, c := range cmds {
@@ -501,8 +735,11 @@ func (k *c39Case) apply(side *c39Side, cmds []*c39Cmd) {
 					return
 				}
 				if !present {
-					k.inconclusive(fmt.Sprintf("accepted %s write not visible on %s (row %s)", c.Fam, side.name, row.Key))
-					return
+					if !c.MayDelete {
+						k.inconclusive(fmt.Sprintf("accepted %s write not visible on %s (row %s)", c.Fam, side.name, row.Key))
+						return
+					}
+					v = c39Absent
 				}
 				if side == k.S {
 					k.expS[row.Key] = v
@@ -518,6 +755,21 @@ func (k *c39Case) apply(side *c39Side, cmds []*c39Cmd) {
 			}
 			if len(c.Slots) > 1 {
 				k.nMulti++
+				k.r.Count("multislot."+c.Fam+".accepted.envelope_"+map[bool]string{true: "migrating", false: "control"}[c.Envelope == k.h]+"."+ph, 1)
+			}
+			if side == k.S {
+				if c.Fam == "admitbatch" {
+					k.admits = append(k.admits, c)
+				}
+				if c.Dep != nil {
+					k.deps[c.Index] = c.Dep.Index
+					for j, a := range k.admits {
+						if a == c.Dep {
+							k.admits = append(k.admits[:j], k.admits[j+1:]...)
+							break
+						}
+					}
+				}
 			}
 		case "fenced":
 			k.nFencedW++
@@ -528,6 +780,9 @@ func (k *c39Case) apply(side *c39Side, cmds []*c39Cmd) {
 		}
 	}
 }
+
+// c39Absent is the reference value of a row an accepted command removed.
+const c39Absent = "<absent>"
 
 func c39Strs(res [][]byte) []string {
 	out := make([]string, len(res))
@@ -553,11 +808,21 @@ func (k *c39Case) sourceWrites(n int) {
 		}
 		cmds := make([]*c39Cmd, 0, b)
 		for i := 0; i < b; i++ {
+			// the envelope hash slot: the migrating one or the control one, whatever the
+			// command carries inside (multi-slot families always carry items for both)
 			hs := k.h
-			if k.rng.IntN(4) == 0 {
+			if k.rng.IntN(3) == 0 {
 				hs = k.c
 			}
+			if len(k.admits) > 0 && k.rng.IntN(4) == 0 {
+				// complete an admission accepted by an EARLIER batch (command 65)
+				cmds = append(cmds, k.genComplete(k.admits[k.rng.IntN(len(k.admits))], hs))
+				break // keep it last in its batch: no second writer of the same keys behind it
+			}
 			cmds = append(cmds, k.genWrite(hs, ""))
+		}
+		if k.dead {
+			return
 		}
 		if k.pinned && !k.imported || k.imported && k.fenceIdx == 0 {
 			for _, c := range cmds {
@@ -567,7 +832,7 @@ func (k *c39Case) sourceWrites(n int) {
 			}
 		}
 		k.apply(k.S, cmds)
-		n -= b
+		n -= len(cmds)
 	}
 }
 
@@ -576,32 +841,40 @@ func (k *c39Case) sourceWrites(n int) {
 func (k *c39Case) probe(side *c39Side) {
 	fam := ""
 	if k.rng.IntN(3) == 0 {
-		fam = "latestbatch" // multi-hash-slot family
+		fam = k.pickMulti() // multi-hash-slot family, items for h and c
 	}
-	cmds := []*c39Cmd{k.genWrite(k.h, fam)}
+	envelope := k.h
+	if fam != "" && k.rng.IntN(2) == 0 {
+		envelope = k.c
+	}
+	cmds := []*c39Cmd{k.genWrite(envelope, fam)}
 	if side == k.S && k.rng.IntN(3) == 0 {
 		// a control write in front: the whole batch must be refused when S lost h
 		cmds = append([]*c39Cmd{k.genWrite(k.c, "user")}, cmds...)
+	}
+	if k.dead {
+		return
 	}
 	k.apply(side, cmds)
 }
 
 // ---------------------------------------------------------------------------
-// delta transport
+// delta transport: two sources, forwarder captures and durable outbox rows
 
 func (k *c39Case) forwarder(_ context.Context, target multiraft.SlotID, cmd multiraft.Command) error {
 	k.r.Count("forward.calls", 1)
-	if uint64(target) != c39TgtSlot || cmd.HashSlot != k.h {
-		k.r.Count("forward.unexpected_target_or_slot", 1)
+	if uint64(target) != c39TgtSlot {
+		k.viol("forwarded-delta-disagrees-with-outbox-row", map[string]any{"what": "forward target slot", "target": uint64(target), "source_index": cmd.Index})
 	}
-	data := append([]byte(nil), cmd.Data...)
-	if _, ok := k.known[cmd.Index]; !ok {
-		k.known[cmd.Index] = data
+	if _, ok := k.captures[cmd.Index]; !ok {
+		// the capture keeps the hash slot exactly as the state machine forwarded it:
+		// a real forwarder builds apply_delta(source, index, cmd.HashSlot, cmd.Data) from it
+		k.captures[cmd.Index] = c39Delta{HashSlot: cmd.HashSlot, Data: append([]byte(nil), cmd.Data...)}
 	}
 	if k.rng.Float64() < k.dropFwd {
 		k.r.Count("forward.capture_lost", 1) // lost in transit: the outbox must cover it
 	} else {
-		k.pending[cmd.Index] = true
+		k.pending[c39Pend{cmd.Index, 'F'}] = true
 	}
 	if k.rng.Float64() < k.failFwd {
 		k.r.Count("forward.returned_error", 1)
@@ -616,39 +889,86 @@ func (k *c39Case) listOutbox() []metadb.HashSlotMigrationOutboxRow {
 		k.inconclusive("ListHashSlotMigrationOutbox: " + err.Error())
 		return nil
 	}
+	for _, row := range rows {
+		if _, ok := k.outbox[row.SourceIndex]; !ok {
+			k.outbox[row.SourceIndex] = c39Delta{HashSlot: row.HashSlot, Data: append([]byte(nil), row.Data...)}
+		}
+	}
 	return rows
+}
+
+// crossCheck runs right after every source apply (no ack can have happened in
+// between): every new forwarder capture must have a durable outbox row with
+// the same source index, hash slot and payload.
+func (k *c39Case) crossCheck() {
+	if k.dead || !k.targets || len(k.captures) == len(k.checked) {
+		return
+	}
+	rows := map[uint64]metadb.HashSlotMigrationOutboxRow{}
+	for _, row := range k.listOutbox() {
+		rows[row.SourceIndex] = row
+	}
+	if k.dead {
+		return
+	}
+	for idx, cap := range k.captures {
+		if k.checked[idx] {
+			continue
+		}
+		k.checked[idx] = true
+		k.r.Eval(1)
+		k.r.Count("crosscheck.captures", 1)
+		row, ok := rows[idx]
+		switch {
+		case !ok:
+			k.viol("forwarded-delta-disagrees-with-outbox-row", map[string]any{"what": "no outbox row for the forwarded source index", "source_index": idx, "forwarded_hash_slot": cap.HashSlot, "phase": k.phase()})
+		case row.HashSlot != cap.HashSlot:
+			k.viol("forwarded-delta-disagrees-with-outbox-row", map[string]any{"what": "hash slot", "source_index": idx, "forwarded_hash_slot": cap.HashSlot, "outbox_hash_slot": row.HashSlot, "phase": k.phase()})
+		case !bytes.Equal(row.Data, cap.Data):
+			k.viol("forwarded-delta-disagrees-with-outbox-row", map[string]any{"what": "payload", "source_index": idx, "forwarded_bytes": len(cap.Data), "outbox_bytes": len(row.Data), "phase": k.phase()})
+		}
+	}
 }
 
 // refill makes every un-delivered outbox row (optionally only through max) pending.
 func (k *c39Case) refill(max uint64) {
 	for _, row := range k.listOutbox() {
-		if _, ok := k.known[row.SourceIndex]; !ok {
-			k.known[row.SourceIndex] = append([]byte(nil), row.Data...)
-		}
 		if max != 0 && row.SourceIndex > max {
 			continue
 		}
 		if k.delivered[row.SourceIndex] == 0 {
-			k.pending[row.SourceIndex] = true
+			k.pending[c39Pend{row.SourceIndex, 'O'}] = true
 		}
 	}
 }
 
-func (k *c39Case) deltaCmd(idx uint64) multiraft.Command {
-	k.T.next++
-	return multiraft.Command{SlotID: multiraft.SlotID(c39TgtSlot), HashSlot: k.h, Index: k.T.next, Term: 1,
-		Data: fsm.EncodeApplyDeltaCommand(multiraft.SlotID(c39SrcSlot), idx, k.h, k.known[idx])}
+func (k *c39Case) delta(p c39Pend) (c39Delta, bool) {
+	if p.Src == 'F' {
+		d, ok := k.captures[p.Index]
+		return d, ok
+	}
+	d, ok := k.outbox[p.Index]
+	return d, ok
 }
 
-// deliver applies the deltas idxs as one ApplyBatch on T. poison appends an
+// deltaCmd wraps one copy of a delta the way its transport would: the hash
+// slot is the one that transport carries, not one the harness knows better.
+func (k *c39Case) deltaCmd(p c39Pend) multiraft.Command {
+	d, _ := k.delta(p)
+	k.T.next++
+	return multiraft.Command{SlotID: multiraft.SlotID(c39TgtSlot), HashSlot: d.HashSlot, Index: k.T.next, Term: 1,
+		Data: fsm.EncodeApplyDeltaCommand(multiraft.SlotID(c39SrcSlot), p.Index, d.HashSlot, d.Data)}
+}
+
+// deliver applies the deltas ps as one ApplyBatch on T. poison appends an
 // ordinary write the target must refuse, which aborts the whole batch.
-func (k *c39Case) deliver(idxs []uint64, poison bool, replay bool) {
-	if k.dead || len(idxs) == 0 {
+func (k *c39Case) deliver(ps []c39Pend, poison bool, replay bool) {
+	if k.dead || len(ps) == 0 {
 		return
 	}
-	batch := make([]multiraft.Command, 0, len(idxs)+1)
-	for _, i := range idxs {
-		batch = append(batch, k.deltaCmd(i))
+	batch := make([]multiraft.Command, 0, len(ps)+1)
+	for _, p := range ps {
+		batch = append(batch, k.deltaCmd(p))
 	}
 	var pc *c39Cmd
 	if poison {
@@ -657,7 +977,7 @@ func (k *c39Case) deliver(idxs []uint64, poison bool, replay bool) {
 		batch = append(batch, multiraft.Command{SlotID: multiraft.SlotID(c39TgtSlot), HashSlot: k.h, Index: k.T.next, Term: 1, Data: pc.Data})
 	}
 	var err error
-	if k.r.Guard("ApplyBatch:delta", map[string]any{"case": k.idx, "idxs": idxs}, func() { _, err = k.T.sm.ApplyBatch(k.ctx, batch) }) {
+	if k.r.Guard("ApplyBatch:delta", map[string]any{"case": k.idx, "deltas": fmt.Sprint(ps)}, func() { _, err = k.T.sm.ApplyBatch(k.ctx, batch) }) {
 		k.dead = true
 		return
 	}
@@ -666,8 +986,8 @@ func (k *c39Case) deliver(idxs []uint64, poison bool, replay bool) {
 		k.r.Count("delta.poisoned_batches", 1)
 		if err == nil {
 			k.viol("non-owner-accepted:target", map[string]any{"why": "ordinary write for h behind deltas in one batch, target does not own h", "phase": k.phase()})
-			for _, i := range idxs {
-				k.noteDelivered(i, replay)
+			for _, p := range ps {
+				k.noteDelivered(p, replay)
 			}
 			return
 		}
@@ -676,15 +996,17 @@ func (k *c39Case) deliver(idxs []uint64, poison bool, replay bool) {
 		return // nothing of the batch may have been applied; deltas stay pending
 	}
 	if err != nil {
-		k.inconclusive(fmt.Sprintf("target refused an apply_delta batch %v: %v", idxs, err))
+		k.inconclusive(fmt.Sprintf("target refused an apply_delta batch %v: %v", ps, err))
 		return
 	}
-	for _, i := range idxs {
-		k.noteDelivered(i, replay)
+	for _, p := range ps {
+		k.noteDelivered(p, replay)
 	}
 }
 
-func (k *c39Case) noteDelivered(i uint64, replay bool) {
+func (k *c39Case) noteDelivered(p c39Pend, replay bool) {
+	i := p.Index
+	k.r.Count("delta.delivered_from."+map[byte]string{'F': "forwarder_capture", 'O': "outbox_row"}[p.Src], 1)
 	if k.delivered[i] > 0 {
 		k.nDup++
 		k.r.Count("delta.duplicate_deliveries", 1)
@@ -701,7 +1023,7 @@ func (k *c39Case) noteDelivered(i uint64, replay bool) {
 		k.r.Count("delta.post_switch_replays", 1)
 	}
 	k.delivered[i]++
-	delete(k.pending, i)
+	delete(k.pending, p)
 }
 
 func c39Keys(m map[uint64]bool) []uint64 {
@@ -713,30 +1035,76 @@ func c39Keys(m map[uint64]bool) []uint64 {
 	return out
 }
 
+// eligible lists the pending copies whose prerequisite delta (completion after
+// admission, the only same-key pair) already reached the target or never
+// travelled as a delta (it is part of the snapshot then).
+func (k *c39Case) eligible() []c39Pend {
+	out := make([]c39Pend, 0, len(k.pending))
+	for p := range k.pending {
+		if dep, ok := k.deps[p.Index]; ok && k.delivered[dep] == 0 {
+			_, f := k.captures[dep]
+			_, o := k.outbox[dep]
+			if f || o {
+				continue
+			}
+		}
+		out = append(out, p)
+	}
+	sort.Slice(out, func(a, b int) bool {
+		if out[a].Index != out[b].Index {
+			return out[a].Index < out[b].Index
+		}
+		return out[a].Src < out[b].Src
+	})
+	return out
+}
+
+// anyCopy returns a deliverable copy (random transport) of an already delivered delta.
+func (k *c39Case) anyCopy(idx uint64) (c39Pend, bool) {
+	var cands []c39Pend
+	if _, ok := k.captures[idx]; ok {
+		cands = append(cands, c39Pend{idx, 'F'})
+	}
+	if _, ok := k.outbox[idx]; ok {
+		cands = append(cands, c39Pend{idx, 'O'})
+	}
+	if len(cands) == 0 {
+		return c39Pend{}, false
+	}
+	return cands[k.rng.IntN(len(cands))], true
+}
+
 // deliverSome delivers up to n pending deltas in a hostile order.
 func (k *c39Case) deliverSome(n int) {
 	for ; n > 0 && !k.dead; n-- {
-		p := c39Keys(k.pending)
+		p := k.eligible()
 		if len(p) == 0 {
 			return
 		}
-		pick := func() uint64 { return p[k.rng.IntN(len(p))] }
+		pick := func() c39Pend { return p[k.rng.IntN(len(p))] }
+		old := func() (c39Pend, bool) {
+			d := c39Keys(c39Positive(k.delivered))
+			if len(d) == 0 {
+				return c39Pend{}, false
+			}
+			return k.anyCopy(d[k.rng.IntN(len(d))])
+		}
 		switch x := k.rng.IntN(10); {
 		case x < 5: // one random pending delta
-			k.deliver([]uint64{pick()}, false, false)
+			k.deliver([]c39Pend{pick()}, false, false)
 		case x < 7: // batch incl. a duplicate inside the batch and an already delivered one
-			idxs := []uint64{pick(), pick()}
-			idxs = append(idxs, idxs[0])
-			if d := c39Keys(c39Positive(k.delivered)); len(d) > 0 {
-				idxs = append(idxs, d[k.rng.IntN(len(d))])
+			ps := []c39Pend{pick(), pick()}
+			ps = append(ps, ps[0])
+			if o, ok := old(); ok {
+				ps = append(ps, o)
 			}
-			k.rng.Shuffle(len(idxs), func(i, j int) { idxs[i], idxs[j] = idxs[j], idxs[i] })
-			k.deliver(idxs, false, false)
+			k.rng.Shuffle(len(ps), func(i, j int) { ps[i], ps[j] = ps[j], ps[i] })
+			k.deliver(ps, false, false)
 		case x < 8: // poisoned batch, then nothing: redelivery happens later
-			k.deliver([]uint64{pick()}, true, false)
+			k.deliver([]c39Pend{pick()}, true, false)
 		default: // re-deliver something already applied
-			if d := c39Keys(c39Positive(k.delivered)); len(d) > 0 {
-				k.deliver([]uint64{d[k.rng.IntN(len(d))]}, false, false)
+			if o, ok := old(); ok {
+				k.deliver([]c39Pend{o}, false, false)
 			}
 		}
 	}
@@ -863,6 +1231,9 @@ func (k *c39Case) checkTarget(stage string) {
 		}
 		k.r.Eval(1)
 		if !present {
+			v = c39Absent
+		}
+		if !present && k.expT[key] != c39Absent {
 			if missing < 3 {
 				k.viol("accepted-write-missing-on-target:"+row.Fam, map[string]any{"stage": stage, "row": key, "expected": k.expT[key]})
 			}
@@ -904,7 +1275,7 @@ func (k *c39Case) checkSourceControl(stage string) {
 	if k.dead {
 		return
 	}
-	n, leak := 0, 0
+	n := 0
 	for key, want := range k.expS {
 		row := k.rows[key]
 		if row.Slot != k.c {
@@ -915,16 +1286,73 @@ func (k *c39Case) checkSourceControl(stage string) {
 		if k.dead {
 			return
 		}
-		k.r.Eval(1)
-		if !present || v != want {
-			k.viol("control-slot-write-lost-on-source:"+row.Fam, map[string]any{"stage": stage, "row": key, "expected": want, "got": v, "present": present})
+		if !present {
+			v = c39Absent
 		}
-		if _, onT := k.readRow(k.T, row); onT {
-			leak++
+		k.r.Eval(1)
+		if v != want {
+			k.viol("control-slot-write-lost-on-source:"+row.Fam, map[string]any{"stage": stage, "row": key, "expected": want, "got": v})
 		}
 	}
 	k.r.Count("check."+stage+".control_rows", n)
-	k.r.Count("control_rows_visible_in_target_db", leak) // evidence only
+}
+
+// c39SnapshotEntries reads the entry count of a portable hash-slot snapshot
+// (magic[4] version[2] n[2] slots[2n] count[8] ...).
+func c39SnapshotEntries(data []byte) (uint64, bool) {
+	if len(data) < 8 {
+		return 0, false
+	}
+	n := int(binary.BigEndian.Uint16(data[6:8]))
+	off := 8 + 2*n
+	if len(data) < off+8 {
+		return 0, false
+	}
+	return binary.BigEndian.Uint64(data[off : off+8]), true
+}
+
+// checkLeak: the target may hold h (migrated) and its own t0, nothing else. A
+// delta applied under the wrong hash slot puts rows of a non-migrating hash
+// slot (the control slot c, or the legacy envelope slot 0) into the target.
+func (k *c39Case) checkLeak(stage string) {
+	if k.dead {
+		return
+	}
+	for _, hs := range []uint16{k.c, 0} {
+		snap, err := k.T.db.ExportHashSlotSnapshot(k.ctx, []uint16{hs})
+		if err != nil {
+			k.inconclusive("export for the leak check: " + err.Error())
+			return
+		}
+		cnt, ok := c39SnapshotEntries(snap.Data)
+		if !ok {
+			k.inconclusive("unparsable snapshot header in the leak check")
+			return
+		}
+		k.r.Eval(1)
+		if cnt == 0 {
+			continue
+		}
+		fams := map[string]int{}
+		for _, row := range k.rows {
+			if row.Slot != hs {
+				continue
+			}
+			if _, onT := k.readRow(k.T, row); onT {
+				fams[row.Fam]++
+			}
+		}
+		names := make([]string, 0, len(fams))
+		for f := range fams {
+			names = append(names, f)
+		}
+		sort.Strings(names)
+		if len(names) == 0 {
+			names = []string{"untyped"} // rows under a hash slot no generated write was keyed to (e.g. envelope slot 0)
+		}
+		k.viol("non-migrating-hash-slot-rows-in-target:"+strings.Join(names, "+"), map[string]any{"stage": stage, "hash_slot": hs, "is_control_slot": hs == k.c, "raw_entries": cnt, "typed_rows_by_family": fams})
+	}
+	k.r.Count("check."+stage+".leak_scans", 2)
 }
 
 // ---------------------------------------------------------------------------
@@ -957,8 +1385,7 @@ func (k *c39Case) run() {
 	}
 	// ---- C: snapshot (pinned), writes around it, import
 	var snapData []byte
-	if rng.IntN(3) != 0 {
-		k.snapMethod = "open-pinned-stream"
+	if k.snapMethod != "export" {
 		rc, err := S.sm.OpenHashSlotSnapshot(k.ctx, k.h)
 		if err != nil {
 			k.inconclusive("OpenHashSlotSnapshot: " + err.Error())
@@ -974,7 +1401,6 @@ func (k *c39Case) run() {
 		}
 		snapData = b
 	} else {
-		k.snapMethod = "export"
 		snap, err := S.sm.ExportHashSlotSnapshot(k.ctx, k.h)
 		if err != nil {
 			k.inconclusive("ExportHashSlotSnapshot: " + err.Error())
@@ -1022,7 +1448,7 @@ func (k *c39Case) run() {
 		// [write, FENCE, write, write] in one ApplyBatch: the tail must be fenced
 		k.fenceInBatch = true
 		pre := k.genWrite(k.h, "")
-		post1, post2 := k.genWrite(k.h, ""), k.genWrite(k.h, "latestbatch")
+		post1, post2 := k.genWrite(k.h, ""), k.genWrite([]uint16{k.h, k.c}[rng.IntN(2)], k.pickMulti())
 		S.next++
 		b := []multiraft.Command{{SlotID: multiraft.SlotID(c39SrcSlot), HashSlot: k.h, Index: S.next, Term: 1, Data: pre.Data}}
 		S.next++
@@ -1039,6 +1465,7 @@ func (k *c39Case) run() {
 		}
 		k.nPostPin++
 		k.recordSourceResults([]*c39Cmd{pre, nil, post1, post2}, res)
+		k.crossCheck()
 	} else {
 		S.next++
 		res, err := S.sm.Apply(k.ctx, multiraft.Command{SlotID: multiraft.SlotID(c39SrcSlot), HashSlot: k.h, Index: S.next, Term: 1, Data: fence})
@@ -1046,6 +1473,7 @@ func (k *c39Case) run() {
 			k.inconclusive(fmt.Sprintf("enter fence: res=%q err=%v", res, err))
 			return
 		}
+		k.crossCheck()
 	}
 	if k.dead {
 		return
@@ -1067,9 +1495,9 @@ func (k *c39Case) run() {
 	for round := 0; round < 50 && !k.dead; round++ {
 		k.refill(k.fenceIdx)
 		// forwarder captures beyond the fence are not part of the cut-over set
-		for i := range k.pending {
-			if i > k.fenceIdx {
-				delete(k.pending, i)
+		for p := range k.pending {
+			if p.Index > k.fenceIdx {
+				delete(k.pending, p)
 			}
 		}
 		if len(k.pending) == 0 {
@@ -1110,6 +1538,7 @@ func (k *c39Case) run() {
 	k.r.Eval(1)
 	// CP1: everything S accepted for h is on T; business bytes identical
 	k.checkTarget("drained")
+	k.checkLeak("drained")
 	if k.dead {
 		return
 	}
@@ -1184,12 +1613,24 @@ func (k *c39Case) run() {
 		return
 	}
 	// replay every delta ever emitted up to the fence: reordered, duplicated, batched, across a restart
-	all := make([]uint64, 0, len(k.known))
-	for i := range k.known {
+	// ... and from both transports (a capture and its outbox row are two copies)
+	all := make([]c39Pend, 0, len(k.captures)+len(k.outbox))
+	for i := range k.captures {
 		if i <= k.fenceIdx {
-			all = append(all, i)
+			all = append(all, c39Pend{i, 'F'})
 		}
 	}
+	for i := range k.outbox {
+		if i <= k.fenceIdx {
+			all = append(all, c39Pend{i, 'O'})
+		}
+	}
+	sort.Slice(all, func(a, b int) bool {
+		if all[a].Index != all[b].Index {
+			return all[a].Index < all[b].Index
+		}
+		return all[a].Src < all[b].Src
+	})
 	for pass := 0; pass < 2 && !k.dead; pass++ {
 		rng.Shuffle(len(all), func(i, j int) { all[i], all[j] = all[j], all[i] })
 		for off := 0; off < len(all) && !k.dead; {
@@ -1223,6 +1664,7 @@ func (k *c39Case) run() {
 	k.sourceControlWrites()
 	k.checkTarget("final")
 	k.checkSourceControl("final")
+	k.checkLeak("final")
 }
 
 // recordSourceResults books results of a hand-built source batch (nil = maintenance command).
@@ -1268,7 +1710,7 @@ func (k *c39Case) postSwitchWrites() {
 	// fresh keys
 	n := 1 + rng.IntN(4)
 	for i := 0; i < n && !k.dead; i++ {
-		fam := c39Families[rng.IntN(len(c39Families)-1)] // single-slot families only: T does not own c
+		fam := c39Single[rng.IntN(len(c39Single))] // single-slot families only: T does not own c
 		k.apply(T, []*c39Cmd{k.genWrite(k.h, fam)})
 	}
 	// newer values on keys that deltas/snapshot wrote: a re-applied stale delta becomes visible
@@ -1339,7 +1781,7 @@ func (k *c39Case) postSwitchWrites() {
 func (k *c39Case) sourceControlWrites() {
 	n := 1 + k.rng.IntN(3)
 	for i := 0; i < n && !k.dead; i++ {
-		fam := c39Families[k.rng.IntN(len(c39Families)-1)]
+		fam := c39Single[k.rng.IntN(len(c39Single))]
 		k.apply(k.S, []*c39Cmd{k.genWrite(k.c, fam)})
 	}
 }
@@ -1354,34 +1796,60 @@ func (k *c39Case) fingerprint() string {
 		}
 		return "many"
 	}
-	return fmt.Sprintf("%s|sw=%s|fib=%v|pp=%s|dup=%s|inv=%s|poi=%s|rT=%s|rS=%s|multi=%s|v2=%s|fw=%s|drop=%.0f|fail=%.0f",
+	return fmt.Sprintf("legacy=%v|", k.legacy) + fmt.Sprintf("%s|sw=%s|fib=%v|pp=%s|dup=%s|inv=%s|poi=%s|rT=%s|rS=%s|multi=%s|v2=%s|fw=%s|drop=%.0f|fail=%.0f",
 		k.snapMethod, k.switchOrder, k.fenceInBatch, b(k.nPostPin), b(k.nDup), b(k.nInv), b(k.nPoison), b(k.nRestartT), b(k.nRestartS), b(k.nMulti), b(k.nV2), b(k.nFencedW), k.dropFwd*10, k.failFwd*10)
 }
 
-func TestVerifC39(t *testing.T) {
-	r := verifkit.Start(t, "C39", "main")
+// TestVerifC39: unit main.
+func TestVerifC39(t *testing.T) { c39Run(t, "main", false) }
+
+// TestVerifC39Cmd59: the same monitor, with create-runtime-metadata batches
+// (command 59) that carry items for the migrating AND the control hash slot.
+// Command 59 is the one multi-hash-slot family without a per-hash-slot filter
+// for apply_delta, so it is kept apart from unit main.
+func TestVerifC39Cmd59(t *testing.T) { c39Run(t, "cmd59", true) }
+
+func c39Run(t *testing.T, unit string, both59 bool) {
+	r := verifkit.Start(t, "C39", unit)
 	defer r.Finish()
-	r.SetRule("One case = one full migration of a random hash slot h from slot 11 to slot 22 (two real fsm state machines on two real meta DBs) with a PRNG stream of uniquely keyed writes (user, device, channel, subscriber set with counter, membership, channel-latest, plugin binding, multi-hash-slot channel-latest batch spanning h and a control slot) in every phase; forwarder captures are randomly lost/failed so the durable outbox has to cover them; deltas reach the target reordered, duplicated (also inside one batch), behind-poison (aborted batch) and replayed after restarts; ordinary writes for h are submitted to the non-owner in every phase. Non-trivial = the case reached the switch with >=1 write accepted after the snapshot pin, >=1 duplicate or out-of-order delivery and >=1 post-switch overwrite followed by a full replay; distinct = (snapshot method, switch order, fence-in-batch, bucketed counts of post-pin writes/dups/inversions/poisoned batches/restarts/multi-slot/overwrites/fenced writes, loss and failure rate of the forwarder).")
+	r.SetRule("One case = one full migration of a random hash slot h from slot 11 to slot 22 (two real fsm state machines on two real meta DBs) with a PRNG stream of uniquely keyed writes (user, device, channel, subscriber set with counter, membership, channel-latest, plugin binding, and every command family with a per-item hash slot: channel-latest batch 47, create-runtime-meta batch 59, person-directory admission 63 / membership 64 / completion 65, each carrying items for h AND the control slot c, proposed under either envelope hash slot) in every phase; one case in five uses a legacy source (fsm.NewStateMachine, envelope hash slot 0); forwarder captures are randomly lost/failed so the durable outbox has to cover them; deltas are delivered from both transports, each copy with the hash slot that transport carries, and every capture is cross-checked against its outbox row; deltas reach the target reordered, duplicated (also inside one batch), behind-poison (aborted batch) and replayed after restarts; ordinary writes for h are submitted to the non-owner in every phase. Non-trivial = the case reached the switch with >=1 write accepted after the snapshot pin, >=1 duplicate or out-of-order delivery and >=1 post-switch overwrite followed by a full replay; distinct = (snapshot method, switch order, fence-in-batch, bucketed counts of post-pin writes/dups/inversions/poisoned batches/restarts/multi-slot/overwrites/fenced writes, loss and failure rate of the forwarder).")
 	r.Assume("Phase order copied from DESIGN.md and the protocol notes in docs (the production driver is not in this tree): delta targets before the snapshot pin; no delta reaches the target before the snapshot import finished; the switch waits for every outbox row <= FenceIndex to be applied and acknowledged; cleanup runs after the ownership switch.")
 	r.Assume("A success result of ApplyBatch (anything but hash_slot_fenced / stale_meta / error) = accepted; the value an accepted write has on the accepting side right after the apply is the reference value.")
 	r.Note("production_driver", "pkg/cluster has no hash-slot migration executor in this tree (grep for UpdateOutgoingDeltaTargets/EncodeApplyDeltaCommand finds only pkg/slot/fsm and pkg/db/meta); the harness is the driver.")
 
 	base := t.TempDir()
-	n := r.N(160, 1500)
+	sigSeen := map[string]int{}
+	n, stream := r.N(160, 1500), uint64(39)
+	if both59 {
+		n, stream = r.N(40, 300), 3959
+	}
 	for i := 0; i < n; i++ {
 		if r.Skip(i) {
 			continue
 		}
-		rng := r.Rand(39, uint64(i))
+		rng := r.Rand(stream, uint64(i))
 		perm := rng.Perm(300)
 		k := &c39Case{r: r, rng: rng, ctx: context.Background(), idx: i, dir: filepath.Join(base, fmt.Sprintf("case%d", i)),
 			h: uint16(1 + perm[0]), c: uint16(1 + perm[1]), t0: uint16(1 + perm[2]),
 			expS: map[string]string{}, expT: map[string]string{}, rows: map[string]*c39Row{}, absentS: map[string]*c39Row{}, absentT: map[string]*c39Row{},
-			known: map[uint64][]byte{}, pending: map[uint64]bool{}, delivered: map[uint64]int{}, acked: map[uint64]bool{},
+			captures: map[uint64]c39Delta{}, outbox: map[uint64]c39Delta{}, checked: map[uint64]bool{}, deps: map[uint64]uint64{},
+			pending: map[c39Pend]bool{}, delivered: map[uint64]int{}, acked: map[uint64]bool{},
 			dropFwd: []float64{0, 0.3, 0.6, 1}[rng.IntN(4)], failFwd: []float64{0, 0.3, 1}[rng.IntN(3)]}
-		k.S = &c39Side{name: "source", slot: c39SrcSlot, path: filepath.Join(k.dir, "src"), owned: map[uint16]bool{k.h: true, k.c: true}, next: uint64(rng.IntN(1000))}
+		k.rt59Both, k.sigSeen = both59, sigSeen
+		k.snapMethod = "open-pinned-stream"
+		if rng.IntN(3) == 0 {
+			k.snapMethod = "export"
+		}
+		if rng.IntN(5) == 0 {
+			// legacy source: fsm.NewStateMachine(db, 11) owns hash slot 11 by default and
+			// resolves envelope hash slot 0 to it; the migrating hash slot is that one.
+			k.legacy = true
+			k.h = uint16(c39SrcSlot)
+			k.c, k.t0 = uint16(12+perm[1]), uint16(320+perm[2])
+		}
+		k.S = &c39Side{name: "source", slot: c39SrcSlot, path: filepath.Join(k.dir, "src"), owned: map[uint16]bool{k.h: true, k.c: true}, next: uint64(rng.IntN(1000)), legacy: k.legacy}
 		k.T = &c39Side{name: "target", slot: c39TgtSlot, path: filepath.Join(k.dir, "tgt"), owned: map[uint16]bool{k.t0: true}, next: uint64(rng.IntN(1000))}
-		r.BeginCase(i, fmt.Sprintf("h=%d c=%d drop=%.1f fail=%.1f", k.h, k.c, k.dropFwd, k.failFwd))
+		r.BeginCase(i, fmt.Sprintf("h=%d c=%d drop=%.1f fail=%.1f legacy=%v", k.h, k.c, k.dropFwd, k.failFwd, k.legacy))
 		if err := k.S.open(); err != nil {
 			r.Inconclusive("open source: " + err.Error())
 			break
@@ -1400,12 +1868,12 @@ func TestVerifC39(t *testing.T) {
 			continue
 		}
 		r.Count("cases.completed", 1)
-		r.Max("max_deltas_in_one_case", len(k.known))
+		r.Max("max_deltas_in_one_case", len(k.outbox))
 		if k.switched && k.nPostPin > 0 && (k.nDup > 0 || k.nInv > 0) && k.nV2 > 0 && k.nReplay > 0 {
 			r.Nontrivial(k.fingerprint())
 		}
 		if r.WantSample() {
-			r.Sample(map[string]any{"case": i, "h": k.h, "c": k.c, "shape": k.fingerprint(), "deltas": len(k.known), "fence_index": k.fenceIdx,
+			r.Sample(map[string]any{"case": i, "h": k.h, "c": k.c, "shape": k.fingerprint(), "deltas": len(k.outbox), "fence_index": k.fenceIdx,
 				"rows_expected_on_target": len(k.expT), "rows_refused_absent": len(k.absentT), "dup": k.nDup, "out_of_order": k.nInv, "replays": k.nReplay})
 		}
 	}
